@@ -22,7 +22,7 @@ def features(sql, dialect):
     f = {"mixed_comma_join_names": set(), "select_subquery_tables": set(), "lateral_view_aliases": set(),
          "rename_old": set(), "rename_new": set(), "having_subquery_tables": set(), "parsed": False,
          "stmt_types": [], "same_alias_subqueries": set(), "case_subquery": False, "n_rename_pairs": 0,
-         "case_subquery_aliases": set(), "subquery_aliases": set(), "select_has_subquery": False, "same_text_subqueries": False, "nested_group_first_aliases": set(), "cte_paren_setop_names": set(), "where_has_subquery": False}
+         "case_subquery_aliases": set(), "subquery_aliases": set(), "select_has_subquery": False, "same_text_subqueries": False, "nested_group_first_aliases": set(), "cte_paren_setop_names": set(), "where_has_subquery": False, "select_subquery_aliases": set()}
     try:
         tree = Linter(config=FluffConfig(overrides={"dialect": d})).parse_string(sql).tree
     except Exception:
@@ -62,6 +62,10 @@ def features(sql, dialect):
         for sub in sce.recursive_crawl("select_statement"):
             f["select_subquery_tables"] |= tables_in(sub)
             f["select_has_subquery"] = True
+            for fee in list(sub.recursive_crawl("from_expression_element")) + [b for b in sub.recursive_crawl("bracketed") if b.get_child("table_expression") is not None]:
+                a = alias_of(fee)
+                if a:
+                    f["select_subquery_aliases"].add(a)
         if any(True for _ in sce.recursive_crawl("case_expression")) and any(True for _ in sce.recursive_crawl("select_statement")):
             f["case_subquery"] = True
             a = sce.get_child("alias_expression")
